@@ -216,6 +216,8 @@ def run(ctx):
                   "an idle context holds nothing of an earlier word (the idle exits of R2/R4 rely on it); non-empty pre-edit text implies an ongoing session")
     r6 = chk.rule("C06.R6", "a back-space that keeps the session returns a non-empty suggestion",
                   "after a backspace that returns an empty suggestion the context reports no ongoing session")
+    r7 = chk.rule("C06.R7", "every back-space path that can be taken with ctrl held ends the word",
+                  "after a ctrl-backspace on a non-empty composition the context reports no ongoing session and is like new")
 
     for ty in sorted(roles):
         short = ty.split("::")[-1]
@@ -359,6 +361,15 @@ def run(ctx):
                 if ev == "backspace_event" and kind in ("empty-ctor", "tested-empty"):
                     continue            # terminating or idle exits: R2 / R4
                 w_S = [(f, op) for (f, op, _) in p["writes"] if f in S]
+                sess_ne0 = any(p["state"].get(f) == "NE" for f in sess0) or p["state"].get(SESSION) == "NE"
+                if ev != "update_engine" and p["ret"] is not None and kind not in ("empty-ctor", "tested-empty") and not sess_ne0:
+                    # something that may be non-empty is handed out: the session flag must be true here
+                    pid0 = "%s.%s:shown@%s" % (short, ev, "/".join(_cond_sig(eb, p)))
+                    last0 = p["path"][-2][0] if len(p["path"]) > 1 else p["path"][-1][0]
+                    r5.violation(pid0, "this exit of %s returns a suggestion other than the empty one although the session flag is not shown true (%s may all be empty "
+                                 "here) — e.g. a list kept from the previous word is handed out by an idle context" % (ev, ", ".join(sess0)), site_of(eb, last0))
+                    n_touch += 1
+                    continue
                 if not w_S:
                     continue            # composition state untouched: invariant carried over from entry
                 n_touch += 1
@@ -439,7 +450,47 @@ def run(ctx):
                     r6.undecidable(pid, msg, site_of(bsb6, last_bb))
                 else:
                     r6.violation("%s.backspace:visible:%s" % (short, st.split(":", 1)[1]), msg, site_of(bsb6, last_bb))
+        # R7: ctrl + back-space on a non-idle context always ends the word
+        bsf = prog.method_impl(ty, "backspace_event")
+        ins = prog.fns[bsf].get("inputs") or []
+        ctrl_idx = [i for i, t_ in enumerate(ins, start=1) if t_ == "bool"]
+        if len(ctrl_idx) != 1:
+            r7.undecidable("%s:ctrl" % short, "the ctrl parameter of backspace_event (its only bool) was not found")
+        else:
+            ci = ctrl_idx[0]
+            bsb7, bpaths7 = analysed["backspace_event"]
+            n7 = 0
+            for p in bpaths7:
+                ctrl_false = False
+                for c in path_conditions(bsb7, p["path"]):
+                    d = strip_refs(c[0])
+                    pol = True
+                    while d.k == "un" and d.a[0] == "Not":
+                        d = strip_refs(d.a[1])
+                        pol = not pol
+                    if d.k == "arg" and d.a[0] == ci:
+                        bv = bool_of(c)
+                        if bv is not None and (bv == pol) is False:
+                            ctrl_false = True
+                if ctrl_false:
+                    continue            # this path is only taken without ctrl
+                n7 += 1
+                kind = _ret_emptiness(bsb7, p, empty_ctor)
+                pid = "%s.ctrl-backspace@%s" % (short, "/".join(_cond_sig(bsb7, p)))
+                last_bb = p["path"][-2][0] if len(p["path"]) > 1 else p["path"][-1][0]
+                all_e = all(p["state"].get(f) == "E" for f in S)
+                if all(p["entry_empty"].get(f) for f in sess0) and kind in ("empty-ctor", "tested-empty"):
+                    r7.ok(pid, "idle on entry: nothing to delete (R4 / R5)")
+                elif kind in ("empty-ctor", "tested-empty") and all_e:
+                    r7.ok(pid, "can be taken with ctrl: ends the word (every composition field empty, empty suggestion)")
+                else:
+                    r7.violation(pid, "this back-space path can be taken with ctrl held but %s — ctrl+back-space must delete the whole word"
+                                 % ("keeps " + ", ".join("self." + f for f in sorted(S) if p["state"].get(f) != "E") if not all_e else "returns a non-empty suggestion"),
+                                 site_of(bsb7, last_bb))
+            if n7 == 0:
+                r7.undecidable("%s:ctrl" % short, "no back-space path can be taken with ctrl held")
     r1.floor(4, "3 fixed + 1 phonetic composition fields")
+    r7.floor(4, "ctrl paths of both methods")
     r5.floor(4, "key and back-space events of both methods")
     r6.floor(3, "non-terminating back-space exits (fixed ≥2, phonetic ≥1)")
     r2.floor(8, "terminating exits: fixed commit 1, finish 1, backspace ≥3; phonetic commit ≥1, finish 1, backspace ≥2")
